@@ -735,3 +735,29 @@ def twin_percent_to_format(tree, relpath):
 
 
 TWINS2.append(("percent-formatting-written-as-str.format", twin_percent_to_format))
+
+
+def twin_try_finally_noop(tree, relpath):
+    """every function body (after the docstring) is wrapped in `try: <body> finally: pass` (what a timing / metrics wrapper leaves when its bookkeeping is a no-op)"""
+    for n in ast.walk(tree):
+        if isinstance(n, ast.FunctionDef):
+            head = n.body[:1] if n.body and _is_doc(n.body[0]) else []
+            rest = n.body[len(head):]
+            if rest:
+                n.body = head + [ast.Try(body=rest, handlers=[], orelse=[], finalbody=[ast.Pass()])]
+    return tree
+
+
+TWINS2.append(("every-function-body-in-try-finally-pass", twin_try_finally_noop))
+
+
+def twin_identity_decorator(tree, relpath):
+    """every undecorated function gets a decorator that returns it unchanged (what a registration / tracing decorator looks like to a reader of the source)"""
+    for n in ast.walk(tree):
+        if isinstance(n, ast.FunctionDef) and not n.decorator_list and n.name != "_twin_identity":
+            n.decorator_list = [ast.Name(id="_twin_identity", ctx=ast.Load())]
+    tree.body.insert(_future_idx(tree), ast.parse("def _twin_identity(f):\n    return f").body[0])
+    return tree
+
+
+TWINS2.append(("identity-decorator-on-every-function", twin_identity_decorator))
